@@ -121,7 +121,12 @@ func (b *Bench) inject(buf []byte, from net.Addr) {
 // wrapPacket applies the sender-side pipeline of a peer with the node's own
 // configuration (compression optional, CRC optional, encryption, label).
 func (b *Bench) wrapPacket(msg []byte, compress, crc bool) []byte {
-	conf := b.n.conf
+	return wrapPacketFor(b.n, msg, compress, crc)
+}
+
+// wrapPacketFor applies the sender-side pipeline of a peer configured like n.
+func wrapPacketFor(n *SimNode, msg []byte, compress, crc bool) []byte {
+	conf := n.conf
 	if compress {
 		if cb, err := compressPayload(msg, conf.MsgpackUseNewTimeFormat); err == nil {
 			msg = cb.Bytes()
@@ -132,7 +137,7 @@ func (b *Bench) wrapPacket(msg []byte, compress, crc bool) []byte {
 	}
 	if conf.EncryptionEnabled() {
 		var out bytes.Buffer
-		if err := encryptPayload(b.n.m.encryptionVersion(), conf.Keyring.GetPrimaryKey(), msg, []byte(conf.Label), &out); err != nil {
+		if err := encryptPayload(n.m.encryptionVersion(), conf.Keyring.GetPrimaryKey(), msg, []byte(conf.Label), &out); err != nil {
 			panic(err)
 		}
 		msg = out.Bytes()
